@@ -1,6 +1,7 @@
 #!/bin/bash
 # Negative controls: behaviour-preserving refactorings of /repo (they compile; R1 renames identifiers the
 # package-internal tests also use, the others keep the suite green). No check may report a violation on them.
+export UHLINT_EVIDENCE_DIR=$(mktemp -d /tmp/uhlint-ev.XXXXXX)  # never overwrite /verif/evidence from a modified tree
 set -u
 cd /repo
 git diff --quiet || { echo "/repo working tree not clean"; exit 2; }
